@@ -60,6 +60,7 @@ def chunks(lst, n):
 
 
 STALL_S = int(os.environ.get("VERIF_STALL_S", "90"))
+RUN_STATS = {"scenarios": 0, "model_timeouts": 0}
 
 
 def run_blocks(cmd, blocks, stall):
@@ -143,6 +144,15 @@ def run_pair(sub, scenarios, jobs=None, extra_driver_args=(), extra_vh_args=(), 
         for a, b in ex.map(one, parts):
             impl.update(a)
             model.update(b)
+    # a scenario on which the *model* did not finish in time says nothing about the code (the driver is quadratic and the
+    # machine may be loaded): it is dropped from the comparison and counted; many of them at once are reported by the caller
+    slow = [nm for nm, out in model.items() if out and out[0].endswith("-timeout")]
+    for nm in slow:
+        model.pop(nm, None)
+        impl.pop(nm, None)
+    if len(parts) > 1 or len(scenarios) > 1:
+        RUN_STATS["scenarios"] += len(scenarios)
+        RUN_STATS["model_timeouts"] += len(slow)
     return impl, model
 
 
@@ -207,6 +217,11 @@ class Verdict:
     def finish(self):
         wall = time.time() - self.t0
         cov = dict(self.coverage)
+        cov["model_timeouts"] = dict(RUN_STATS)
+        if RUN_STATS["model_timeouts"] > max(5, RUN_STATS["scenarios"] // 50) and not self.violations:
+            # systematic: the model's state spaces are far larger than the implementation's
+            self.violation("model-timeouts.txt", f"# property {self.pid}: the Lean model did not finish on {RUN_STATS['model_timeouts']} of "
+                           f"{RUN_STATS['scenarios']} scenarios the implementation finished: the two explore very different state spaces\n", no_input=True)
         ev = {
             "property_id": self.pid, "tier": self.tier, "seed": self.seed, "level": "proof",
             "coverage": cov, "assumptions": self.assumptions, "wall_s": round(wall, 2),
